@@ -135,6 +135,25 @@ def check_hh(width: int) -> bool:
     return ok
 
 
+def check_hh_query_sees_other_view(cnt: int, thr: int) -> bool:
+    """
+    pre: 1 <= cnt < 2**32 and 0 <= thr < 2**32
+    post: _ == True
+    """
+    kernel_impl(HH, "fasthash64", lambda key, seed: np.uint64(0), record=False)
+    owner = HH.HeavyHitters(1, 1, 2, 0.5, True)
+    view = HELPERS.attach_shared_memory("hh", owner.args, owner.shm.name)
+    first = owner.query(10, thr)
+    # what one add through the other view leaves in the shared block (the kernel's effect is decided by C03/C05)
+    view.lhh[0, 0, 0] = 97
+    view.key_lens[0, 0] = 1
+    view.lhh_count[0, 0] = cnt
+    view.n_added_records[0] = view.n_added_records[0] + cnt
+    second = owner.query(10, thr)
+    owner.shm = None
+    return first == [] and second == ([(b"a", cnt)] if cnt >= thr else [])
+
+
 def check_dispatch(kind: int) -> bool:
     """
     pre: 0 <= kind <= 3
@@ -265,6 +284,20 @@ def real_hh(width):
         if not ok:
             return False, f"HeavyHitters({_w(width)},{depth},{mkl}): {det}"
     return True, "ok"
+
+
+def real_hh_query_sees_other_view(cnt, thr):
+    import gc as _gc
+    owner = HH.HeavyHitters(1, 1, 2, 0.5, True)
+    view = HELPERS.attach_shared_memory("hh", owner.args, owner.shm.name)
+    first = owner.query(10, thr)
+    view.add(b"a", cnt)
+    second = owner.query(10, thr)
+    want = [(b"a", cnt)] if cnt >= thr else []
+    ok = first == [] and [(bytes(k), int(c)) for k, c in second] == want
+    del view
+    _gc.collect()
+    return ok, f"owner.query() before {first!r}; after view.add(b'a', {cnt}) the owner answers {second!r}, expected {want!r}"
 
 
 def real_dispatch(kind):
